@@ -149,3 +149,94 @@ func HC04Pool() {
 	vAssert(a4 == b4, "same-query-satisfied")
 	vReach("end")
 }
+
+// c08Nested builds a well-formed document of exactly d nested containers of the given shape
+// (0 arrays, 1 objects, 2 alternating) around a scalar, with optional single spaces (symbolic choice).
+func c08Nested(shape, d int, scalar bool) []byte {
+	var open, close []byte
+	for i := 0; i < d; i++ {
+		obj := shape == 1 || (shape == 2 && i%2 == 1)
+		if obj {
+			open = append(open, '{', '"', 'k', '"', ':')
+			close = append([]byte{'}'}, close...)
+		} else {
+			open = append(open, '[')
+			close = append([]byte{']'}, close...)
+		}
+	}
+	out := append([]byte{}, open...)
+	if scalar {
+		out = append(out, '1')
+	} else {
+		out = append(out, '[', ']')
+	}
+	return append(out, close...)
+}
+
+// HC08Depth: with a private state of cap k, every well-formed document whose values all sit at
+// depth <= k is parsed to its end (the depth budget is spent once per container, whatever its kind);
+// one level more is refused. With k = 4096 this is the property's "nesting depth up to 4096".
+func HC08Depth() {
+	k := 1 + vChoice("cap", 6)
+	shape := vChoice("shape", 3)
+	d := vChoice("depth", k+3)
+	scalar := vChoice("scalar", 2) == 1
+	doc := c08Nested(shape, d, scalar)
+	p := &parserState{maxRecursion: k}
+	n := p.consumeAny(doc, nil, 0)
+	// depth of the innermost value: d for a scalar, d for the empty array itself (no value inside it)
+	if d <= k {
+		vAssert(n == len(doc) && !p.failed, "within-cap-is-parsed")
+	}
+	if d > k+1 || (scalar && d > k) {
+		vAssert(p.failed || n != len(doc), "beyond-cap-is-refused")
+	}
+	vReach("end")
+}
+
+// HC04History: the pooled parser after a *real* earlier parse (not a hand-made dirty state): any
+// first input over the structural alphabet - complete, failing half-way, cut inside an array or
+// object - followed by a second document must give the second document the verdict a fresh parser gives.
+func HC04History() {
+	maxN := vChoice("maxlen", 32)
+	first := vBytes("first", 0, maxN)
+	jsAlpha(first, "[]{}\":,1a ")
+	q1 := [4]string{QueryNone, QueryGeo, QueryHAR, QueryGLTF}[vChoice("query1", 4)]
+	docs := []string{`{"type":"Feature"}`, `{"bbox":[1,2,3,4],"type":"Feature"}`, `{"log":{"version":"1.2"}}`, `{"asset":{"version":"2.0"}}`, `{"a":[1,2],"b":{"c":null}}`, `[1,[2,[3]]]`, `{"version":"2.0"}`}
+	second := []byte(docs[vChoice("second", len(docs))])
+	q2 := [4]string{QueryNone, QueryGeo, QueryHAR, QueryGLTF}[vChoice("query2", 4)]
+	// reference: fresh parser (empty pool)
+	for parserPool.Get() != nil && len(docs) == 0 {
+	}
+	a1, a2, a3, a4 := Parse(q2, second)
+	// history: drop what the reference run left, run the first parse on a fresh state, then the second
+	parserPool.Get()
+	Parse(q1, first)
+	b1, b2, b3, b4 := Parse(q2, second)
+	vAssert(a1 == b1 && a2 == b2 && a3 == b3, "history-same-counts")
+	vAssert(a4 == b4, "history-same-query-verdict")
+	vReach("end")
+}
+
+// HC16History: concrete nesting bombs and deep cut documents as earlier parses; afterwards the
+// pooled state must still carry the cap, and a bomb examined next must still be refused.
+func HC16History() {
+	rep := func(s string, n int) []byte {
+		var out []byte
+		for i := 0; i < n; i++ {
+			out = append(out, s...)
+		}
+		return out
+	}
+	firsts := [][]byte{rep("[", 200), rep(`{"k":`, 150), rep("[", 5000), rep(`[{"k":`, 100), []byte(`{"a":[1,2`)}
+	first := firsts[vChoice("first", len(firsts))]
+	Parse(QueryNone, first)
+	p := parserPool.Get().(*parserState)
+	vAssert(p.maxRecursion == 4096, "cap-survives-deep-history")
+	parserPool.Put(p)
+	bomb := rep("[", 4200)
+	bomb = append(bomb, rep("]", 4200)...)
+	parsed, _, _, _ := Parse(QueryNone, bomb)
+	vAssert(parsed != len(bomb), "bomb-beyond-cap-refused-after-history")
+	vReach("end")
+}
